@@ -89,7 +89,9 @@ func generateRestorer(names []string) error {
 							action := Id("r").Dot("cursor").Op("+=").Qual("go/token", "Pos").Parens(
 								Len(frag.Token.Get("n", false).Dot("String").Call()),
 							)
-							if frag.Exists != nil {
+							if frag.Exists != nil && frag.PositionWhenAbsent {
+								g.If(frag.Exists.Get("n", false)).Block(value, position, action).Else().Block(position)
+							} else if frag.Exists != nil {
 								g.If(frag.Exists.Get("n", false)).Block(value, position, action)
 							} else {
 								g.Add(value)
